@@ -1,7 +1,7 @@
 (* Comparators and the computable square root used by the generated
    correspondence files of C04 / C05 (harness/props/netlist_common.py). *)
 From FrameModel Require Import Num.QcTac Geometry.Rect Cases.Cmp Yaml.Tree Yaml.NetlistRead
-  Yaml.NetlistWrite.
+  Yaml.NetlistWrite Yaml.NetlistReadForms.
 Open Scope Qc_scope.
 
 (* sqrt for evaluation: floor(sqrt(n*d*4^64)) / (d*2^64); exact on squares of
@@ -150,4 +150,12 @@ Definition explain_case (epsdef : option (Qc * Qc)) (t : ytree) (o : observed) :
        list_eqb2 (fun e d => sqd_near (centre_scale ms) (net_sqdists (nl_modules n) e) d)
                (nl_nets n) sqd]
   | _, _ => []
+  end.
+
+(* Netlist(x) for an x that is neither a tree nor a str (None, a number): read_yaml's
+   last branch.  The text layer is not consulted. *)
+Definition check_other (epsdef : option (Qc * Qc)) (o : observed) : bool :=
+  match read_source sqrt_a (fun _ => None) (fun _ => None) epsdef SrcOther, o with
+  | Rejected r, ORejected l => is_nil l || reason_in r l
+  | _, _ => false
   end.
